@@ -42,11 +42,26 @@ def _obs(name, v):
     elif t == "string":
         emit(name, "str", len(v), v.upper(), v[:2], hash(v), v.split(","))
     elif t == "int":
-        emit(name, "int", v + 1, v * 2, -v, str(v), v // 7, hash(v))
+        emit(name, "int", v + 1, v * 2, -v, str(v), v // 7, {v: 1}, v in [v], v == v + 0)
     elif t == "range":
         emit(name, "range", list(v), len(v), 2 in v)
     else:
         emit(name, "other", repr(v), str(v), dir(v)[:6])
+def _copy(v):
+    t = type(v)
+    if t == "list":
+        return [x for x in v]
+    elif t == "dict":
+        return {k: x for k, x in v.items()}
+    elif t == "set":
+        return set([x for x in v])
+    elif t == "tuple":
+        return tuple([x for x in v])
+    elif t == "string":
+        return "".join([c for c in v.elems()])
+    elif t == "struct":
+        return struct(**{a: getattr(v, a) for a in dir(v)})
+    return v
 "#;
 
 /// A frozen library whose factories create closures *inside the library's code* that read the
@@ -126,6 +141,20 @@ const MUTATIONS: &[(&str, &str, bool)] = &[
     ("dict", "T.popitem()", true),
     ("dict", "T.clear()", true),
     ("dict", "HH = [T]\nHH[0] |= {\"n\": 1}", true),
+    // Mutating operations that would not change the content (existing key, empty argument, absent
+    // element): still operations that mutate, still must fail on a frozen value.
+    ("dict", "T.setdefault(list(T.keys())[0] if T else \"q\", 1)", true),
+    ("dict", "T.setdefault(list(T.keys())[-1] if T else \"q\")", true),
+    ("dict", "T.update({})", true),
+    ("dict", "T.update()", true),
+    ("dict", "T.pop(\"zz_absent\", None)", true),
+    ("dict", "HH = [T]\nHH[0] |= {}", true),
+    ("list", "T.extend([])", true),
+    ("list", "HH = [T]\nHH[0] += []", true),
+    ("list", "T[0] = T[0]", true),
+    ("set", "T.discard(\"zz_absent\")", true),
+    ("set", "T.update([])", true),
+    ("set", "T.add(list(T)[0] if T else 1)", true),
     ("set", "T.add(99)", true),
     ("set", "T.discard(list(T)[0] if T else 1)", true),
     ("set", "T.remove(list(T)[0] if T else 1)", true),
@@ -163,10 +192,18 @@ fn frozen_names(fm: &FrozenModule) -> Vec<String> {
 
 fn obs_lines(names: &[String], pure1: &[String]) -> String {
     let mut s: String = names.iter().map(|n| format!("_obs(\"{n}\", {n})\n")).collect();
+    // Equality with fresh, structurally equal values and with empty literals, written with the
+    // export's name directly (a compile-time constant in an importer) at top level and in a def.
+    for n in names {
+        s += &format!(
+            "emit(\"eq\", \"{n}\", {n} == _copy({n}), {n} != _copy({n}), _copy({n}) == {n}, {n} == {n}, [{n}] == [_copy({n})], {n} in [_copy({n})], {n} == [], [] == {n}, {n} == {{}}, {n} != {{}}, {n} == (), {n} == \"\", {n} == set(), {n} == 0, {n} == None)\n"
+        );
+        s += &format!("def _cmp_{n}(x):\n    return [x == {n}, {n} == x, x != {n}, [x] == [{n}], {{\"k\": x}} == {{\"k\": {n}}}]\nemit(\"eqdef\", \"{n}\", _cmp_{n}(_copy({n})), _cmp_{n}([]), _cmp_{n}({{}}))\n");
+    }
     // Side-effect-free callables are also *called*: same result before and after freeze.
     for n in names {
-        if n == "rd0" {
-            s += "emit(\"call\", \"rd0\", rd0())\n";
+        if n == "rd0" || n.starts_with("own_eq") {
+            s += &format!("emit(\"call\", \"{n}\", {n}())\n");
         } else if n == "ad0" || n == "lp0" || pure1.contains(n) {
             s += &format!("emit(\"call\", \"{n}\", {n}(3))\n");
         } else if n == "held0" {
@@ -253,6 +290,26 @@ impl World for C04 {
             pre.extend(stmts);
             stmts = pre;
         }
+        // Empty containers (literal and emptied), and a def of the exporter itself that compares
+        // its own globals with fresh equal values (re-optimised at freeze with the globals known).
+        if wl.chance(1, 2) {
+            stmts.extend(["EL0 = []", "ED0 = {}", "ES0 = set()", "ET0 = ()", "EC0 = [1, 2]", "EC0.clear()", "EK0 = {\"a\": 1}", "EK0.pop(\"a\")", "ESTR0 = \"\""].iter().map(|s| (*s).to_owned()));
+        }
+        {
+            let conts: Vec<&(String, crate::genprog::Kind)> = exports.iter().filter(|(n, k)| matches!(k, crate::genprog::Kind::List | crate::genprog::Kind::Dict) && !n.contains("ld")).take(4).collect();
+            let mut items: Vec<String> = Vec::new();
+            for (n, k) in conts {
+                let c = if *k == crate::genprog::Kind::List { format!("[x for x in {n}]") } else { format!("{{k: v for k, v in {n}.items()}}") };
+                items.push(format!("{c} == {n}"));
+                items.push(format!("{n} != {c}"));
+            }
+            if stmts.iter().any(|s| s == "EL0 = []") {
+                items.extend(["EL0 == []", "[] == EL0", "ED0 == {}", "EC0 == []", "EK0 == {}", "EL0 != []", "[EL0] == [[]]", "ES0 == set()", "ET0 == ()"].iter().map(|s| (*s).to_owned()));
+            }
+            if !items.is_empty() {
+                stmts.push(format!("def own_eq0():\n    return [{}]", items.join(", ")));
+            }
+        }
         let freeze_at = if fl.chance(1, 2) { stmts.len() } else { 1 + fl.usize(stmts.len()) };
         let na = 6 + fl.usize(19);
         let attacks: Vec<Json> = (0..na)
@@ -314,6 +371,13 @@ impl World for C04 {
         // 2. Freeze preserves: the importer-side observation equals the in-module one.
         let post = observe_frozen(&fm, "exp", &pure1);
         o.sim_time += 1;
+        if let Some(e) = &pre_err {
+            o.bump("observation_programs_ending_in_error", 1);
+            if std::env::var_os("VERIF_DEBUG_OBS").is_some() {
+                o.bump(&format!("obs_err.{}", kit::clip(e).chars().take(160).collect::<String>()), 1);
+            }
+            log.push(format!("observer error: {}", kit::clip(e)));
+        }
         if pre_err.is_some() != post.err.is_some() {
             o.violate("freeze-changed-value", "preserve", format!("observation error before freeze {:?}, after {:?}", pre_err, post.err));
         } else if let Some(d) = kit::diff_transcripts(&pre, &post.lines) {
